@@ -418,6 +418,10 @@ func (c *roaClient) reset() {
 
 func (c *roaClient) stop() {
 	c.cancelfnc()
+	if c.timer != nil {
+		c.timer.Stop()
+		c.timer = nil
+	}
 	c.reset()
 }
 
